@@ -83,6 +83,13 @@ CLAIMED["C19"] = {
     "design": "4/C19",
 }
 
+CLAIMED["C03"] = {
+    "text": "Lean theorems: the variable walker (a stack machine mirroring Variables::next, incl. the UnaryOpt push order) reports a variable iff it occurs at SOME syntactic position (every operand, every argument index of every arity class, condition sides, branches, assert message, parentheses; any depth); the cycle-stack DFS shared by the assignment and recipe resolvers is sound for every graph: whatever it accepts is a duplicate-free topological order of known nodes, hence accepted assignments have a rank under which every variable at every position is a constant or a defined variable of smaller rank (no undefined name, no self or mutual reference) and accepted recipes have existing dependencies and a strictly decreasing rank along prior and subsequent edges (C01's Acyclic); defaults see only earlier parameters, dependency arguments and interpolations all of them; a wrong call (unknown function or arity outside its class, over the table REGENERATED from src/function.rs) at any position is rejected; README functions are in the regenerated table with their documented class; the resolver checks exactly the lines the evaluator evaluates (repaired by a fix: commit; the old gap is a proved witness). Correspondence against the binary: undefined name injected in 10 contexts x 36 constructor positions, all 3-node digraphs as variable and recipe graphs, dependency and function arity tables, duplicates, ignore-comments corners, random valid programs; every recipe is also RUN (rejected => nothing ran, accepted => no internal error).",
+    "note": "Trusted: Lean kernel; Analyzer/Dfs models (tied by the differential run and the regenerated table); error messages mapped to (kind, offender) by pattern; duplicate detection compared behaviourally only. The DFS fuel bound (number of nodes + 1) is not proved sufficient; the driver would report a fuel error.",
+    "technique": "Lean 4 proof (fun_induction on the walker, invariant proof of the DFS, mutual structural induction) + defect-injection differential against the binary + regenerated table",
+    "design": "4/C03",
+}
+
 PENDING = "check not built yet in this session (see DESIGN.md build order); no claim is made"
 
 
